@@ -44,42 +44,66 @@ func (c *Ctx) readerFns() []*ssa.Function {
 	return out
 }
 
-// immutablePath: field paths that W0 licenses as single values within a function.
-func immutablePath(p string) bool {
-	for _, suf := range []string{".file", ".file.len", ".file.data", ".file.offset", ".len", ".data", ".offset", ".i"} {
-		if strings.HasSuffix(p, suf) {
+func (c *Ctx) linFn(fn *ssa.Function) *lin.Fn {
+	m := c.model()
+	written := c.fieldsWritten(fn)
+	// a field path read several times is one value when neither the function nor its callees store to a field of
+	// that name in memory they did not allocate (W0 licenses this for the file's content)
+	immutable := func(p string) bool {
+		if strings.HasPrefix(p, "^") || !strings.Contains(p, ".") {
 			return true
 		}
+		last := p[strings.LastIndex(p, ".")+1:]
+		return !written[last]
 	}
-	return strings.HasPrefix(p, "^") || !strings.Contains(p, ".")
-}
-
-func (c *Ctx) linFn(fn *ssa.Function) *lin.Fn {
-	lf := lin.New(fn, immutablePath)
+	lf := lin.New(fn, immutable)
+	if m.ok {
+		lf.DataSuffix = "." + m.ReaderFile + "." + m.Data
+		lf.LenSuffix = "." + m.ReaderFile + "." + m.Len
+	}
 	defer lf.Prepare() // after the domain axioms: loop induction uses them
 	// A-domain for reader primitives: the cursor of a position parameter lies within the file
-	if fn.Signature.Recv() != nil && ssax.PtrNamedIs(fn.Signature.Recv().Type(), "text", "Reader") {
+	if m.ok && fn.Signature.Recv() != nil && ssax.PtrNamedIs(fn.Signature.Recv().Type(), "text", "Reader") {
 		r := fn.Params[0].Name()
+		off, ln := c.offsetAtom(r), c.lenAtom(r)
 		for _, p := range fn.Params[1:] {
 			if ssax.NamedIs(p.Type(), "parsley", "Pos") {
-				cur := lin.Atom(p.Name()).Sub(lin.Atom(r + ".file.offset"))
+				cur := lin.Atom(p.Name()).Sub(lin.Atom(off))
 				lf.Axioms = append(lf.Axioms,
 					lin.Ge(cur, lin.Const(0), "A-domain: "+p.Name()+" >= file offset"),
-					lin.Ge(lin.Atom(r+".file.len"), cur, "A-domain: "+p.Name()+" <= end of file"),
-					lin.Ge(lin.Atom(r+".file.len"), lin.Const(0), "File.len = len(File.data) >= 0"))
+					lin.Ge(lin.Atom(ln), cur, "A-domain: "+p.Name()+" <= end of file"),
+					lin.Ge(lin.Atom(ln), lin.Const(0), "File.len = len(File.data) >= 0"))
 			}
 		}
 	}
-	// callbacks handed to Reader.Readf are called with a non-empty slice (Readf returns early at end of file)
 	return lf
+}
+
+func (c *Ctx) offsetAtom(recv string) string {
+	m := c.model()
+	return recv + "." + m.ReaderFile + "." + m.Offset
+}
+
+func (c *Ctx) lenAtom(recv string) string {
+	m := c.model()
+	return recv + "." + m.ReaderFile + "." + m.Len
 }
 
 func (c *Ctx) ruleW0(rule string) {
 	c.R.Rule(rule, "File.data/len/filename are stored only in NewFile, File.offset only in NewFile and SetOffset, File.lines only in setLines (called under lines == nil), Reader.file only in NewReader; no element of File.data is ever stored", 6)
+	m := c.model()
+	if !m.ok {
+		c.R.Fail("coverage-lost", rule, "text model", "-", "-", "the roles of text.File / text.Reader fields could not be discovered: "+m.why)
+		return
+	}
+	setLines := ""
+	if m.SetLines != nil {
+		setLines = c.name(m.SetLines)
+	}
 	allowed := map[string][]string{
-		"File.data": {"text.NewFile"}, "File.len": {"text.NewFile"}, "File.filename": {"text.NewFile"},
-		"File.offset": {"text.NewFile", "(*text.File).SetOffset"}, "File.lines": {"(*text.File).setLines"},
-		"Reader.file": {"text.NewReader"}, "Reader.regexpCache": {"text.NewReader"},
+		"File." + m.Data: {"text.NewFile"}, "File." + m.Len: {"text.NewFile"},
+		"File." + m.Offset: {"text.NewFile", "(*text.File).SetOffset"}, "File." + m.Lines: {setLines},
+		"Reader." + m.ReaderFile: {"text.NewReader"}, "Reader." + m.ReaderCache: {"text.NewReader"},
 	}
 	textPkg := c.P.Lib["text"]
 	seen := map[string]int{}
@@ -117,7 +141,7 @@ func (c *Ctx) ruleW0(rule string) {
 						c.R.Violation(rule, c.name(fn)+" writes "+key, c.name(fn), c.P.InstrPos(st), "text."+key+" is written outside its designated writer(s) "+strings.Join(al, ", ")+": the bounds proofs treat repeated reads of it as one value, and a reader could see the content change under it")
 					}
 				case *ssa.IndexAddr:
-					if _, f, isLoad := fieldLoad(a.X); isLoad && f == "data" {
+					if _, f, isLoad := fieldLoad(a.X); isLoad && f == m.Data {
 						if base, _, _ := fieldLoad(a.X); base != nil && ssax.PtrNamedIs(base.Type(), "text", "File") {
 							c.R.Violation(rule, c.name(fn)+" writes an element of File.data", c.name(fn), c.P.InstrPos(st), "a byte of the file content is overwritten after construction")
 						}
@@ -127,12 +151,12 @@ func (c *Ctx) ruleW0(rule string) {
 		}
 	}
 	for k := range allowed {
-		if seen[k] == 0 && k != "Reader.regexpCache" {
+		if seen[k] == 0 && k != "Reader."+m.ReaderCache {
 			c.R.Fail("coverage-lost", rule, "no writer of "+k, "-", "-", "no store to text."+k+" found at all: the anchor moved")
 		}
 	}
 	// setLines only under lines == nil
-	if sl := c.P.Func("(*text.File).setLines"); sl != nil {
+	if sl := m.SetLines; sl != nil {
 		for _, e := range c.P.Callers(sl) {
 			if e.Site == nil || !c.P.InLib(e.Caller.Func) || e.Caller.Func.Synthetic != "" {
 				continue
@@ -140,7 +164,7 @@ func (c *Ctx) ruleW0(rule string) {
 			good := false
 			for _, cd := range ssax.DominatingConds(e.Site.Block()) {
 				if x, nilIfTrue, isNT := nilTest(cd.Val); isNT && cd.Truth == nilIfTrue {
-					if _, f, ok := fieldLoad(x); ok && f == "lines" {
+					if _, f, ok := fieldLoad(x); ok && f == m.Lines {
 						good = true
 					}
 				}
@@ -279,7 +303,7 @@ func (c *Ctx) ruleR09b(rule string) {
 		lf := c.linFn(fn)
 		name := c.name(fn)
 		r := fn.Params[0].Name()
-		flen := lin.Atom(r + ".file.len")
+		flen := lin.Atom(c.lenAtom(r))
 		for _, ret := range ssax.Returns(fn) {
 			site := name + " return @" + c.P.InstrPos(ret)
 			pv := ssax.Strip(ret.Results[0])
@@ -377,14 +401,14 @@ func (c *Ctx) ruleR09c(rule string) {
 		for _, in := range b.Instrs {
 			switch x := in.(type) {
 			case *ssa.Lookup:
-				if _, f, ok := fieldLoad(x.X); ok && f == "regexpCache" {
+				if _, f, ok := fieldLoad(x.X); ok && f == c.model().ReaderCache {
 					nKey++
 					if x.Index != exprParam {
 						okKey = false
 					}
 				}
 			case *ssa.MapUpdate:
-				if _, f, ok := fieldLoad(x.Map); ok && f == "regexpCache" {
+				if _, f, ok := fieldLoad(x.Map); ok && f == c.model().ReaderCache {
 					nKey++
 					if x.Key != exprParam || ssax.Strip(x.Value) != ssa.Value(compile) {
 						okKey = false
@@ -450,7 +474,7 @@ func (c *Ctx) ruleR09d(rule string) {
 		}
 		lf := c.linFn(fn)
 		r, p := fn.Params[0].Name(), fn.Params[1].Name()
-		rem := lin.Atom(r + ".file.len").Sub(lin.Atom(p)).Add(lin.Atom(r + ".file.offset"))
+		rem := lin.Atom(c.lenAtom(r)).Sub(lin.Atom(p)).Add(lin.Atom(c.offsetAtom(r)))
 		name := c.name(fn)
 		bt, _ := res.At(0).Type().Underlying().(*types.Basic)
 		for _, ret := range ssax.Returns(fn) {
